@@ -2,7 +2,7 @@
 import gen_gin as G
 import gen_stmts as S
 import gindom
-from gindom import to_driver, compare  # noqa: F401
+from gindom import to_driver  # noqa: F401
 from props.c16 import gen_specs, render, flat_text, count_positions, collect_regmods  # noqa: F401
 
 ID = 'C14'
@@ -21,7 +21,7 @@ RULE = ('(a) include trees of depth up to 3 written to real temporary files, wit
 TRUSTED_BASE = ['Lean 4.33 kernel', 'axioms ⊆ {propext, Classical.choice, Quot.sound}', 'JSON glue (Gin/Drv)',
                 'harness gen_stmts.py / gindom.py (real directories, in-memory readers)',
                 'os.path.join / isabs / isfile and file I/O are the operating system\'s']
-ASSUMPTIONS = ['package-relative names through the Python path (resource_reader) are exercised by the repository\'s own test only',
+ASSUMPTIONS = ['package-relative names through the Python path (resource_reader) are exercised by a table on the real file system, not modelled',
                'statements rendered one per line']
 EXPLANATION = ('Lean theorems about resolveFile (first readable copy in location-major order, absolute names bypass the '
                'locations, searched list), about include statements (result tree, failure chain, missing file applies '
@@ -153,7 +153,74 @@ def gen_resolve_case(rng):
   return {'dom': 'gin', 'ops': ops, '_kind': 'resolve', '_nregs': 0}
 
 
+# package-relative names: `pkg/conf.gin` is looked for inside the Python package `pkg` found on the Python path - a
+# regular package, a namespace package (a plain directory, or several, without __init__.py), a directory of that name
+# that is on the Python path but does not hold the file (the search goes on to the next registered location), and a
+# name nobody can read (IOError naming the locations) - a finite table on the real code and the real file system
+PKGPATH_CASES = [{'dom': 'gin', '_kind': 'pkgpath', 'where': w, 'depth': d, 'ops': [], '_nregs': 0}
+                 for w in ('regular', 'namespace', 'namespace_two_roots', 'shadow_dir_then_location', 'nowhere')
+                 for d in (1, 2)]
+
+
+def run_pkgpath_case(case):
+  import os
+  import shutil
+  import sys
+  import tempfile
+  import core
+  gin = core.fresh_gin()
+  root = tempfile.mkdtemp(prefix='c14pkg-')
+  tag = f'c14p_{case["where"]}_{case["depth"]}'       # fresh package names: importlib caches what it has seen
+  parts = [tag] + (['conf'] if case['depth'] == 2 else [])
+  rel = '/'.join(parts) + '/x.gin'
+  saved_path, saved_cwd = list(sys.path), os.getcwd()
+  facts = {}
+
+  def tree(base, with_init, value):
+    d = os.path.join(root, base, *parts)
+    os.makedirs(d, exist_ok=True)
+    if with_init:
+      for k in range(1, len(parts) + 1):
+        open(os.path.join(root, base, *parts[:k], '__init__.py'), 'a').close()
+    if value is not None:
+      with open(os.path.join(d, 'x.gin'), 'w') as f:
+        f.write(f'WHO = {value!r}\n')
+  try:
+    os.chdir(root)     # nothing of that name in the current directory
+    w = case['where']
+    if w == 'regular':
+      tree('site', True, 'regular')
+    elif w == 'namespace':
+      tree('site', False, 'namespace')
+    elif w == 'namespace_two_roots':
+      tree('site', False, None)
+      tree('site2', False, 'second root')
+      sys.path.insert(0, os.path.join(root, 'site2'))
+    elif w == 'shadow_dir_then_location':
+      tree('site', False, None)            # on the Python path, but the file is not there
+      tree('extra', False, 'location')
+      gin.add_config_file_search_path(os.path.join(root, 'extra'))
+    else:
+      tree('site', False, None)
+      gin.add_config_file_search_path(os.path.join(root, 'extra'))
+    sys.path.insert(0, os.path.join(root, 'site'))
+    try:
+      gin.parse_config_file(rel)
+      facts['outcome'] = gin.query_parameter('%WHO')
+    except Exception as e:  # pylint: disable=broad-except
+      facts['outcome'] = type(e).__name__
+      facts['names_locations'] = 'extra' in str(e)
+    facts['want'] = {'regular': 'regular', 'namespace': 'namespace', 'namespace_two_roots': 'second root',
+                     'shadow_dir_then_location': 'location', 'nowhere': 'OSError'}[w]
+  finally:
+    sys.path[:] = saved_path
+    os.chdir(saved_cwd)
+    shutil.rmtree(root, ignore_errors=True)
+  return {'out': [], 'facts': facts}
+
+
 def gen_cases(rng, tier, boost=1):
+  yield from PKGPATH_CASES
   n = (400 if tier == 'quick' else 12000) * boost
   for _ in range(n):
     yield gen_tree_case(rng)
@@ -161,7 +228,15 @@ def gen_cases(rng, tier, boost=1):
     yield gen_resolve_case(rng)
 
 
+def compare(case, impl, model):
+  if case['_kind'] == 'pkgpath':
+    return None
+  return gindom.compare(case, impl, model)
+
+
 def run_impl(case):
+  if case['_kind'] == 'pkgpath':
+    return run_pkgpath_case(case)
   out = gindom.run_impl(case)
   if case['_kind'] == 'tree':
     regs = [o for o in case['ops'] if o['op'] == 'register']
@@ -174,6 +249,12 @@ def run_impl(case):
 
 
 def oracle(case, impl):
+  if case['_kind'] == 'pkgpath':
+    f = impl['facts']
+    if f.get('outcome') != f.get('want') or (f.get('want') == 'OSError' and not f.get('names_locations')):
+      return (f'package-relative name, {case["where"]}, package depth {case["depth"]}: outcome {f.get("outcome")!r} '
+              f'(names the locations: {f.get("names_locations")}), expected {f.get("want")!r}')
+    return None
   if case['_kind'] == 'resolve':
     op, res = case['ops'][0], impl['out'][0]
     present = [tuple(x) for x in op['present']]
@@ -208,6 +289,8 @@ def oracle(case, impl):
 
 
 def nontrivial(case, impl):
+  if case['_kind'] == 'pkgpath':
+    return True
   if case['_kind'] == 'resolve':
     return len(case['ops'][0]['present']) >= 2
 
@@ -219,6 +302,9 @@ def nontrivial(case, impl):
 
 
 def tally(stats, case, impl):
+  if case['_kind'] == 'pkgpath':
+    stats['kind:pkgpath'] = stats.get('kind:pkgpath', 0) + 1
+    return
   k = 'kind:' + case['_kind'] + (':' + case.get('_entry', '') if case['_kind'] == 'tree' else '')
   stats[k] = stats.get(k, 0) + 1
   res = impl['out'][case['_nregs']]
